@@ -122,6 +122,8 @@ class Ctx:
         e["VERIF_REPO"] = REPO
         e["LUNAR_PROXY_PROCESSORS_DIRECTORY"] = os.path.join(ENGINE, "streams/processors/registry")
         e.setdefault("VERIF_SEED", str(self.seed))
+        # temp files / dirs of the executors land in the scratch directory of this run and disappear with it
+        e["TMPDIR"] = self.sub("tmp")
         if env:
             e.update(env)
         try:
